@@ -45,7 +45,15 @@ fn main() {
             for _ in 0..n {
                 let d = strat.new_tree(&mut runner).unwrap().current();
                 if let Some((a, b)) = adv_operands(&d) {
-                    for (op, p, sig) in strict_pair(&a, &b, &vh::exec::OPS) {
+                    let prec = adv_prec(&d);
+                    for op in vh::exec::OPS {
+                        let (p, sig) = match vh::exec::run_op(prec, vh::exec::Pairing::MM, &a, &b, op) {
+                            Err(p) => {
+                                let s = signature(&p);
+                                (p, s)
+                            }
+                            Ok(_) => continue,
+                        };
                         let key = format!("{:?} {}:{} {}", sig, p.file.rsplit('/').next().unwrap_or(""), p.line, p.message.chars().take(40).collect::<String>());
                         let size = vh::geom::mp_edges(&a).len() + vh::geom::mp_edges(&b).len();
                         let e = seen.entry(key).or_insert((0, usize::MAX, String::new()));
